@@ -168,6 +168,13 @@ func Compress(compression string, b []byte) ([]byte, error) {
 	case "lz4":
 		var out bytes.Buffer
 		w := lz4.NewWriter(&out)
+		// 64 KiB frame blocks for small payloads: readers size their block buffers from the frame
+		// header, and the default (4 MiB, cleared on every decoder set-up) dominated whole checks
+		if len(b) <= 64<<10 {
+			if err := w.Apply(lz4.BlockSizeOption(lz4.Block64Kb)); err != nil {
+				return nil, err
+			}
+		}
 		if _, err := w.Write(b); err != nil {
 			return nil, err
 		}
